@@ -635,14 +635,20 @@ fn kitty_image_id(img: &Image) -> u64 {
 /// In general this identification is just represents individual placement
 /// but in particular implementation it is bound to a physical position on
 /// the screen.
+///
+/// NOTE: placement id `0` means "not specified": `a=p` creates an anonymous
+///       placement and `a=d,d=i` deletes **all** placements of the image, so
+///       identifiers start from 1.
 fn kitty_placement_id(pos: Position) -> u64 {
-    (pos.row as u64 % KITTY_MAX_DIM) + (pos.col as u64 % KITTY_MAX_DIM) * KITTY_MAX_DIM
+    let index = (pos.row as u64 % KITTY_MAX_DIM) + (pos.col as u64 % KITTY_MAX_DIM) * KITTY_MAX_DIM;
+    index % KITTY_MAX_ID + 1
 }
 
 fn kitty_placement_to_pos(placement_id: u64) -> Position {
+    let index = placement_id.saturating_sub(1);
     Position {
-        col: (placement_id / KITTY_MAX_DIM) as usize,
-        row: (placement_id % KITTY_MAX_DIM) as usize,
+        col: (index / KITTY_MAX_DIM) as usize,
+        row: (index % KITTY_MAX_DIM) as usize,
     }
 }
 
